@@ -103,7 +103,7 @@ func c04Typed(ctx *core.Ctx, idx int) core.Result {
 func init() {
 	register(&core.Property{
 		ID:          "C04",
-		Rule:        "(1) name-pressure sessions: 2..5 names used at once as global, parameter, local initialised from the outer variable (the README's a = a+1 pattern), fresh local, for-variable and captured variable across functions nested up to 3 levels (the third level must not see the first level's variables); every function writes all visible names on entry/middle, snapshots them before and after every call it makes (DIFF marker if a call changed them), updates a captured variable and calls the closure again (sharing until return), and lets closures escape directly, inside an array or inside an array of arrays; escaped closures are dug out and called after deep recursion overwrote the dead frames; (2) typed sessions with local functions, higher-order parameters and returned closures; both with the complete global frame compared with the reference after every statement, REPL/script mode, plain/tight/pregrown allocation. non-trivial = >= 2 functions and >= 2 calls; distinct by session and mode.",
+		Rule:        "(1) name-pressure sessions: 2..5 names used at once as global, parameter, local initialised from the outer variable (the README's a = a+1 pattern), fresh local, for-variable and captured variable across functions nested up to 3 levels (the third level must not see the first level's variables); every function writes all visible names on entry/middle, snapshots them before and after every call it makes (DIFF marker if a call changed them), updates a captured variable and calls the closure again (sharing until return), and lets closures escape directly, inside an array or inside an array of arrays; escaped closures are dug out and called after deep recursion overwrote the dead frames; (2) typed sessions with local functions, higher-order parameters and returned closures; (3) hof: closure plumbing (gen/hof.go) — sibling closures of one call that hand out or call each other, closures routed through other functions (returned unchanged, picked, wrapped in a capturing closure, yielded by a generator and returned out of the consuming loop, [f][0]) while the defining call is live and its variables change, nested definers, closures yielded by generators whose loop is left early, all called again after the defining call returned and other calls, deep recursion and loops reused the stack and recycled the iterator contexts (half of the sessions are one top-level statement, since contexts are recycled per statement); all with the complete global frame compared with the reference after every statement, REPL/script mode, plain/tight/pregrown allocation. non-trivial = >= 2 functions and >= 2 calls; distinct by session and mode.",
 		Assumptions: []string{"names are declared (parameter or first statements) before any loop of the function body, so static and dynamic lookup order cannot differ (DESIGN.md 4.3 rule 1)"},
 		Families: []core.Family{
 			{Name: "corpus", Count: func(string) int { return len(corpusSessions()) * 2 * len(stressModes) }, Run: func(_ *core.Ctx, idx int) core.Result { return corpusCase("C04", idx, true) }},
@@ -111,6 +111,6 @@ func init() {
 			{Name: "typed", Count: countFn(5000, 200000), Run: c04Typed},
 			{Name: "hof", Count: countFn(5000, 300000), Run: c04Hof},
 		},
-		Floors: []core.Floor{{Key: "statements_compared", Quick: 30000, Thor: 3000000}, {Key: "functions_defined", Quick: 8000, Thor: 800000}, {Key: "escaped_closures_called", Quick: 1000, Thor: 100000}, {Key: "tag:scope:", Quick: 2, Thor: 2}, {Key: "nontrivial", Quick: 3000, Thor: 300000}},
+		Floors: []core.Floor{{Key: "statements_compared", Quick: 30000, Thor: 3000000}, {Key: "functions_defined", Quick: 8000, Thor: 800000}, {Key: "escaped_closures_called", Quick: 10000, Thor: 1000000}, {Key: "closure_routes", Quick: 10000, Thor: 600000}, {Key: "tag:scope:", Quick: 2, Thor: 2}, {Key: "nontrivial", Quick: 3000, Thor: 300000}},
 	})
 }
